@@ -160,6 +160,8 @@ def run_save(case, plan=None, log=None, hooks=None, fs=None, only_warmup=False):
     dest_arg, dest_abs, part_abs = paths(case)
     if fs is None:
         fs = simfs.SimFS(cwd=DIR, umask=case.get('umask', 0o022))
+        if case.get('std_fds_closed'):
+            fs.first_fd = 0          # a daemon that closed stdin/stdout/stderr: the next file opened gets descriptor 0
         for spec, path in ((case.get('dest_initial'), dest_abs), (case.get('part_initial'), part_abs)):
             if spec is None:
                 continue
@@ -188,6 +190,8 @@ def run_save(case, plan=None, log=None, hooks=None, fs=None, only_warmup=False):
     shim = simfs.SimShutil(simos)
     fu.shutil = shim
     fu.copy2, fu.copystat = shim.copy2, shim.copystat
+    if hasattr(fu, 'move'):
+        fu.move = shim.move        # (a name the module imported from shutil)
     fu.tempfile = simfs.SimTempfile(simos)
     fu.filecmp = simfs.SimFilecmp(simos)
     for kind, e in (case.get('env') or {}).items():
@@ -229,6 +233,33 @@ def run_save(case, plan=None, log=None, hooks=None, fs=None, only_warmup=False):
         fs.cwd = OTHER_CWD           # the process changes its working directory (a daemon's chdir('/'))
         if log is not None:
             log.add('chdir', OTHER_CWD)
+    if case.get('abandon_by_hand'):
+        # the documented way without a with statement: setup(), writes to part_file ... and then the producer fails
+        # and never gets to call __exit__; the saver object is dropped
+        try:
+            saver.setup()
+            r.entered = True
+            for step in case['body']:
+                if step[0] == 'write':
+                    saver.part_file.write(step[1] if case.get('text_mode') else bytes.fromhex(step[1]))
+                elif step[0] == 'flush':
+                    saver.part_file.flush()
+                elif step[0] == 'raise':
+                    break
+            r.exc = BodyError('the producer failed and the saver was abandoned')
+        except simfs.CrashNow:
+            r.crashed = True
+        except core_Unsimulated:
+            sim.dispose()
+            raise
+        except BaseException as e:
+            r.exc = e
+        try:
+            sim.current_saver = None
+            saver = None                # last reference: the object is finalised here (an implementation may have a __del__)
+        finally:
+            sim.dispose()
+        return r
     try:
         with saver as f:
             r.entered = True
@@ -416,6 +447,11 @@ def gen_workload(rng, faults=False):
         case['entry'] = 'class'     # AtomicSaver(...) instead of atomic_save(...)
     if rng.random() < 0.04:
         case['fork_before_enter'] = True
+    if rng.random() < 0.04:
+        case['std_fds_closed'] = True
+    if faults and rng.random() < 0.03:
+        case['abandon_by_hand'] = True
+        case.pop('reuse', None)
     if rng.random() < 0.3:
         case['omit_defaults'] = True    # keyword arguments equal to the documented defaults are not passed
     if faults and case['dest_rel'] and rng.random() < 0.3:
